@@ -110,7 +110,23 @@ def gen_oplist(r, acc, n_ops=None, dma_p=0.35):
         dt = r.choice(dts)
         layout = r.choice(layouts)
         if x < dma_p:
-            kind = r.choice(["fm2fm", "const2fm", "weights", "lut", "lut"])
+            kind = r.choice(["fm2fm", "const2fm", "weights", "lut", "lut", "fm_tail"])
+            if kind == "fm_tail":
+                # only the last rows of a feature map an earlier operation uses are refilled: the transfer conflicts with a part of
+                # that operation's address range, not with its start
+                cands = [b_ for b_ in pool.all if b_["layout"] == "NHWC" and b_["tiles"][0] == b_["shape"][0] and b_["shape"][0] >= 2]
+                if not cands:
+                    continue
+                b = r.choice(cands)
+                bits_ = DT_BITS[b["dt"]]
+                sy = default_strides(b["shape"], "NHWC", bits_)[0]
+                rows = [k_ for k_ in range(1, b["shape"][0]) if (k_ * sy) % 16 == 0]
+                if not rows:
+                    continue
+                r1 = r.choice(rows)
+                n = round_up((b["shape"][0] - r1) * sy, 16)
+                ops.append(dict(t="dma", src=const_range(n), dst=[b["region"], b["tiles"][3][0] + r1 * sy]))
+                continue
             if kind == "lut":
                 slot = r.randrange(8)
                 ops.append(dict(t="dma", src=const_range(256), dst=[HW.SHRAM_REGION, HW.ACCEL[HW.API_ACCEL[acc]]["lut_addr"] + 256 * slot]))
@@ -168,6 +184,14 @@ def gen_oplist(r, acc, n_ops=None, dma_p=0.35):
                         continue
                     op["ifm2"] = fm_desc(i2, rand_q(r, dt))
                     op["reversed"] = False
+                    h, w, c = shape
+                    if (tuple(s2) in ((1, w, c), (1, 1, c)) and ifm_b["layout"] == "NHWC" and not inplace and h >= 2 and ifm_b["tiles"][0] == h
+                            and r.random() < 0.35):
+                        # the second operand is a row (or a pixel) INSIDE the first one (x + x[k:k+1]): nested address ranges of one operation
+                        sy = default_strides(shape, "NHWC", DT_BITS[dt])[0]
+                        row = r.randrange(h)
+                        op["ifm2"] = dict(dt=dt, region=ifm_b["region"], shape=list(s2), layout="NHWC", tiles=[1, 0, s2[1], [ifm_b["tiles"][3][0] + row * sy, 0, 0, 0]],
+                                          q=op["ifm"]["q"], buf=ifm_b["id"])
                 if r.random() < 0.3:
                     op["reversed"] = True  # IFM2 is the first operand (const - x, const >> x ...)
             ops.append(op)
